@@ -171,7 +171,10 @@ def template_task(task):
     prog = interp.Program()
     prog.load(libmir, REPO)
     prog.load(tmir, crate)
-    mk, mods = H.machine_factory(prog, generics={'R': name})
+    gen = {'R': name}
+    if extra.get('user'):
+        gen['U'] = extra['user']
+    mk, mods = H.machine_factory(prog, generics=gen)
     out = {'name': name, 'issues': [], 'covers': set(), 'queries': 0, 'solver_s': 0.0, 'called': set(), 'samples': [],
            'answers_seen': 0}
 
@@ -193,7 +196,7 @@ def template_task(task):
         ea = PG.engine_answers(m, res)
         if len(ea) >= limit and mode != 'subset':
             raise NotEncodable('answer limit reached')
-        m.reify_report = reify_checks(m, res)
+        m.reify_report = reify_checks(m, res) if not extra.get('user') else None
         return params, ea, fa
 
     def on_path(r):
@@ -230,7 +233,16 @@ def template_task(task):
                                    'reference_answers': [PG.show_answer(a) for a in fa][:6]})
         if diff is None:
             return
-        # derive a replayable witness
+        # derive a replayable witness.  When every reference answer is ground the replay simply states the
+        # expected answers (independent of which wrong answers this executor's run happened to produce)
+        def is_ground(t):
+            return t[0] != 'var' and all(is_ground(x) for x in t[1:] if isinstance(x, tuple))
+        if mode != 'subset' and all(is_ground(a[0]) and not a[1] for a in fa) and all(not e[1] for e in ea):
+            rr, model = ctx.query()
+            pv = [H.model_int(model, p) for p in params]
+            exp = [norm_str(PG.show_term(a[0], model)) for a in fa]
+            add_issue('answers', '%s (expected answers %s, engine answers %s)' % (diff, exp, [norm_str(PG.show_term(e[0], model)) for e in ea]), pv, mode, exp)
+            return
         g = z3.Const('g_inst', TM.T())
         ie, iff = instances(ea, g, 'e'), instances(fa, g, 'f')
         for kind, f1, f2 in (('spurious', ie, iff), ('lost', iff, ie)):
@@ -258,8 +270,46 @@ def template_task(task):
     return out
 
 
+def case_source_user(prop, name, progast, nparams, pv, kind, data, what, path, extra):
+    lets = ''.join('    let p%d: TC = LTerm::from(%d);\n' % (i, pv[i]) for i in range(nparams))
+    goals = [PG.goal_src(g) for g in progast]
+    if kind == 'instance':
+        goals = goals + ['q == %s' % data[0]]
+    body = ',\n        '.join(goals)
+    run = ('    let q: TC = LTerm::var("q");\n    let goal: Goal<CntUser, CE> = proto_vulcan!([\n        %s\n    ]);\n'
+           '    let mut solver: Solver<CntUser, CE> = Solver::new((), false);\n'
+           '    let mut stream = solver.start(&goal, State::new(CntUser::default()));\n'
+           '    let mut got: Vec<String> = vec![];\n'
+           '    while got.len() < 64 { match solver.next(&mut stream) { Some(st) => got.push(format!("{}", st.smap_ref().walk_star(&q))), None => break } }\n' % body)
+    if kind == 'instance':
+        check = '    assert_eq!(got.len() > 0, %s, "q = %s must %sbe a solution");\n' % ('true' if data[1] else 'false', data[0].replace('"', '\\"'), '' if data[1] else 'not ')
+    elif kind == 'nopanic':
+        check = ''
+    else:
+        exp = ', '.join('"%s".to_string()' % e.replace('"', '\\"') for e in (data or []))
+        check = '    let mut expected: Vec<String> = vec![%s];\n    got.sort();\n    expected.sort();\n    assert_eq!(got, expected);\n' % exp
+    return '''// Counterexample found by mirsym/z3 for property %s, template %s: %s
+// Replay: /verif/check %s --replay %s
+#![allow(unused_imports, unused_variables, unused_mut, dead_code)]
+use proto_vulcan::prelude::*;
+use proto_vulcan::lterm::LTerm;
+use proto_vulcan::relation::{diseqfd, distinctfd, infd, infdrange, ltefd, ltfd, minusfd, plusfd, timesfd};
+use proto_vulcan::relation::{append, member};
+use proto_vulcan::solver::{Solve, Solver};
+use proto_vulcan::state::State;
+use proto_vulcan::stream::Stream;
+use std::rc::Rc;
+%s
+#[test]
+fn replay() {
+%s%s%s}
+''' % (prop, name, what.replace('\n', ' '), prop, path, PG.USER_RS, lets, run, check)
+
+
 def case_source(prop, name, progast, nparams, pv, kind, data, what, path, extra=None):
     extra = extra or {}
+    if extra.get('user'):
+        return case_source_user(prop, name, progast, nparams, pv, kind, data, what, path, extra)
     lets = ''.join('    let p%d: T = LTerm::from(%d);\n' % (i, pv[i]) for i in range(nparams))
     lets += ''.join('    let %s: T = LTerm::var("%s");\n' % (v, v) for v in extra.get('vars', []))
     for cname, (ckind, elems) in extra.get('colls', {}).items():
